@@ -15,7 +15,8 @@
      6 Dom.Out does not invert IDom (spec)                    7 Dom.Out <> dom_children (model)
      8 DomFrontier panicked     9 DomFrontier <> df_spec (sets, reachable nodes)
     10 DomFrontier <> dom_frontier (model, exact, rows of reachable nodes)   11 an argument was modified
-    12 the model itself panicked / ran out of fuel (diag 1 / 2)  *)
+    12 the model itself panicked / ran out of fuel (diag 1 / 2)
+   A line with no root at all is a mismatch (pos -1, diag 13): nothing was observed.  *)
 From MM Require Import Base.Num Base.GDGraph Spec.Dom Model.Dom.
 Local Open Scope Z_scope.
 
@@ -154,6 +155,8 @@ Definition check_C19 (line : list Z) : list Z :=
   | None => verdict V_MALFORMED 0 (-1) []
   | Some ((g, os), _) =>
       if negb (wfb g) || negb (forallb (fun o => (ro_root o <? length g)%nat) os) then verdict V_MALFORMED 0 (-1) [] else
+      (* a line without any root observes nothing: never accepted (the harness rejects such a case) *)
+      if (length os =? 0)%nat then verdict V_MISMATCH 0 (-1) [13] else
       match mk_ins g with
       | Ok insl =>
           match check_roots g insl os 0 0 with
